@@ -589,7 +589,7 @@ def r13_6(ctx):
 
 
 def rules(ctx):
-    return [__import__('vjsx.rules.c10', fromlist=['x']).field_ratchet('hints must not depend on earlier elements'), r13_7, r13_1, r13_2, r13_3, r13_4, r13_5, r13_6]
+    return [__import__('vjsx.rules.c10', fromlist=['x']).field_ratchet('hints must not depend on earlier elements'), r13_7, r13_1, r13_2, r13_3, r13_4, r13_5, r13_6, __import__('vjsx.rules.c01', fromlist=['x']).r01_8]
 
 
 EXPLANATION = (
